@@ -426,6 +426,8 @@ TIES = {
                           theorems=['print_dispatch', 'print_null_tie', 'print_null_model', 'streamer_streamable_tie', 'streamer_opaque_tie', 'streamer_pair_tie',
                                     'streamer_collection_eq', 'streamer_tuple_eq', 'streamer_collection_tie', 'streamer_tuple_tie'],
                           cxx='print(os, t), printer<T>::print, streamer<>::print for streamable values, pairs, tuples, collections, opaque objects (mock.hpp)'),
+    'Mkarg': dict(props=['C09', 'C19'], gen=['ArgInRange', 'ArgOutOfRange', 'Mkarg'], theorems=['mkarg_tie', 'underscore_k'],
+                  cxx='mkarg<N> and the two arg<N> overloads (mock.hpp): what _k is bound to'),
     'Ring': dict(props=['C14'], gen=['RingUnlink', 'RingElemDtor', 'RingMoveAssign', 'RingPushFront', 'RingPushBack', 'RingBegin', 'RingEnd',
                                     'RingIterIncr', 'RingIsLinked', 'RingListDtor'],
                  theorems=['ring_unlink_tie', 'ring_elem_dtor_tie', 'ring_move_assign_tie', 'ring_push_front_tie', 'ring_push_back_tie',
